@@ -97,7 +97,8 @@ pub trait AggValidFinal<T: IsNone>: Vec1View<T> {
             if corr < 0.5 {
                 (last_n, n) = (last_n, life);
             } else if corr > 0.5 {
-                (last_n, n) = (life, last_n);
+                // still above one half at `life`: search the upper half
+                (last_n, n) = (life, n);
             } else {
                 n = life;
                 break;
